@@ -1,4 +1,4 @@
-import Goyang.Model.Process
+import Goyang.Model.Pipeline
 /-
 The state machine of ONE `yang.Modules` value (property C18): `load` = `Modules.Parse`,
 `process` = `Modules.Process`, `read` = `ToEntry(ms.Modules[key]).Find(path)`.
@@ -17,8 +17,9 @@ What Go keeps in a `Modules` value between calls, and how it appears here:
   typeDict.dict (typedefs by defining node)             | not state: a function of the loaded ASTs
                                                         |   (`Parse` merges a text's typedefs only
                                                         |   when the whole text is accepted)
-  typeDict.identities.dict, Identity.Values,            | not state: `processAll` is a pure function
-  Type.YangType / Typedef.YangType / Type.resolveErrs,  |   of the registry - the model ASSUMES these
+  typeDict.identities.dict, Identity.Values,            | not state: `processAll reg opts (plug reg)` is
+  Type.YangType / Typedef.YangType / Type.resolveErrs,  |   a pure function of the registry - the model
+  (since f1bc79c stamped with the run that made them),  |   ASSUMES these
   Import.Module / Include.Module links, includes,       |   memo tables and links are transparent
   mergedSubmodule, byNS, entryInProgress                |   (recomputed or irrelevant in every run);
                                                         |   the correspondence runner corr-c18 is what
@@ -39,15 +40,10 @@ rejected statement rejects the whole text. -/
 def tryLoad (reg : Registry) (f : SrcFile) : Except Registry.AddErr Registry :=
   f.stmts.foldlM (fun r s => r.add s) reg
 
-/-- `Modules.Parse` of a text that was built: atomic, a rejected text leaves the registry as it
-was (the definition the resolver driver `drv_res` uses). -/
-def loadFile (reg : Registry) (f : SrcFile) : Registry :=
-  match tryLoad reg f with
-  | .ok r => r
-  | .error _ => reg
-
-/-- A batch of texts into a fresh `NewModules()`. -/
-def loadFiles (files : List SrcFile) : Registry := files.foldl loadFile {}
+/-- `Modules.Parse` of a text that was built is `Goyang.Model.loadFile` (Pipeline.lean, what the
+resolver driver `drv_res` uses): atomic, a rejected text leaves the registry as it was. -/
+theorem loadFile_eq (reg : Registry) (f : SrcFile) :
+    loadFile reg f = match tryLoad reg f with | .ok r => r | .error _ => reg := rfl
 
 end Session
 
@@ -94,15 +90,16 @@ structure Session where
 
 namespace Session
 
-/-- One call. -/
-def step (plug : Plug) (s : Session) : Op → Session × Out
+/-- One call.  `plug reg` are the type and identity layers for the registry `reg` (the driver uses
+`plugFull`): like everything else in `process`, a function of the registry alone. -/
+def step (plug : Registry → Plug) (s : Session) : Op → Session × Out
   | .load f buildOk =>
     if !buildOk then (s, .rejected .build) else
     match tryLoad s.reg f with
     | .ok r => ({ s with reg := r }, .accepted)
     | .error e => (s, .rejected (.add e))
   | .process =>
-    let o := processAll s.reg s.opts plug
+    let o := processAll s.reg s.opts (plug s.reg)
     ({ s with cache := some o }, .processed o)
   | .read key path =>
     match s.reg.getModule key with
@@ -120,7 +117,7 @@ def step (plug : Plug) (s : Session) : Op → Session × Out
           ({ s with cache := some { o with forest := forest } }, .found loc)
 
 /-- A history from state `s`: final state and the answers. -/
-def runFrom (plug : Plug) (s : Session) : List Op → Session × List Out
+def runFrom (plug : Registry → Plug) (s : Session) : List Op → Session × List Out
   | [] => (s, [])
   | op :: ops =>
     let (s', o) := step plug s op
@@ -128,10 +125,10 @@ def runFrom (plug : Plug) (s : Session) : List Op → Session × List Out
     (sf, o :: os)
 
 /-- A history on a fresh `NewModules()` with the given options. -/
-def run (plug : Plug) (opts : Opts) (h : List Op) : List Out := (runFrom plug { opts := opts } h).2
+def run (plug : Registry → Plug) (opts : Opts) (h : List Op) : List Out := (runFrom plug { opts := opts } h).2
 
 /-- The state a history leaves behind. -/
-def after (plug : Plug) (opts : Opts) (h : List Op) : Session := (runFrom plug { opts := opts } h).1
+def after (plug : Registry → Plug) (opts : Opts) (h : List Op) : Session := (runFrom plug { opts := opts } h).1
 
 end Session
 
